@@ -61,8 +61,9 @@ class Paths:
         vals = const_values(k, self.fn.node)
         if vals and all(isinstance(v, str) for v in vals):
             return frozenset(vals)
-        if isinstance(k, ast.Name) and (k.id in self.who.params or k.id in self.who.sa_defs):
-            return ("name", k.id)  # a string that does not change during the call (parameter / bound once)
+        kx = self.who.x(k) if isinstance(k, ast.Name) else k  # aliases left by an expanded helper (`key_ = ref_type`) undone
+        if isinstance(kx, ast.Name) and (kx.id in self.who.params or kx.id in self.who.sa_defs):
+            return ("name", kx.id)  # a string that does not change during the call (parameter / bound once)
         return "?"
 
     def _child(self, base, key):
@@ -136,11 +137,15 @@ SAMPLE = {0: frozenset({0}), 1: frozenset({1}), MANY: frozenset(range(2, 2 + 4 *
 class Interp:
     """abstract interpretation of one function for ONE container `cid`"""
 
-    def __init__(self, fn, paths: Paths, cid, writer_methods):
+    def __init__(self, fn, paths: Paths, cid, writer_methods, synthetic=(), pure=()):
         self.fn = fn
         self.P = paths
         self.cid = cid
         self.writer_methods = writer_methods
+        self.synth: dict = {}  # id(call) -> [(what, base, key)] mutations the call of a handle helper stands for
+        for c, b, what, k in synthetic:
+            self.synth.setdefault(id(c), []).append((what, b, k))
+        self.pure = set(pure)  # names of helpers that reach the file only through the nodes they are handed
         self.g = CFG(fn.node)
         self.bad: dict = {}  # id(delete stmt) -> set of worlds that reach the container delete unproven
         self.seen_sites: set = set()
@@ -268,6 +273,27 @@ class Interp:
                         # the container itself: created fresh (it was absent = empty), or merely fetched
                         worlds = {w for w in worlds if w == (0, False)} if not req else worlds
                     continue
+                if recv in (["cls"], ["H5Writer"]) and id(x) in self.synth:
+                    # what the helper may do to the nodes it is handed (its own control flow is not known here: every effect MAY happen)
+                    for what, b, k in self.synth[id(x)]:
+                        if k is None:
+                            continue
+                        if what.startswith("del"):
+                            if self.P.path(b) == self.cid:
+                                tgt = self.P.is_target_key(k)
+                                worlds = worlds | {w2 for w in worlds for w2 in self._after_delete_member(w, tgt)}
+                            elif self.P.path(ast.Subscript(value=b, slice=k, ctx=ast.Load())) == self.cid:
+                                self.seen_sites.add(id(x))
+                                unproven = {w for w in worlds if not (w[0] == 0 or (w[0] == 1 and w[1]))}
+                                if unproven:
+                                    self.bad.setdefault(id(x), set()).update(unproven)
+                                worlds = worlds | {(0, False)}
+                        elif self.P.path(b) == self.cid:
+                            tgt = self.P.is_target_key(k)
+                            worlds = worlds | {w2 for w in worlds for w2 in self._after_create_member(w, tgt, True)}
+                    if f.attr not in self.pure:
+                        worlds = set(WORLDS)
+                    continue
                 if recv in (["cls"], ["H5Writer"]):
                     if f.attr == "create_dataset" and x.args and self.P.path(x.args[0]) == self.cid:
                         worlds = {w2 for w in worlds for w2 in self._after_create_member(w, False)}
@@ -377,8 +403,9 @@ class Interp:
         return {None: states}
 
 
-def container_deletes(fn, who, allowed):
-    """[(delete stmt, base expr, key expr, who of base, cid | None, is_target_key)] for every `del <handle>[key]` on a parent's node"""
+def container_deletes(fn, who, allowed, synthetic=()):
+    """[(delete stmt, base expr, key expr, who of base, cid | None, is_target_key)] for every `del <handle>[key]` on a parent's node;
+    `synthetic`: (call node, base, what, key) deletions that a call of a handle helper stands for (see _c09_summary)"""
     target_uids = set(allowed) | {"param:uid"}
     P = Paths(fn, who, target_uids)
     out = []
@@ -388,13 +415,14 @@ def container_deletes(fn, who, allowed):
             uid_keyed.add(P.path(n.value))
         elif isinstance(n, ast.Compare) and len(n.ops) == 1 and isinstance(n.ops[0], (ast.In, ast.NotIn)) and who.uid_expr(n.left) is not None:
             uid_keyed.add(P.sized(n.comparators[0]))
+    for _c, b, _what, k in synthetic:
+        if k is not None and who.uid_expr(k) is not None:
+            uid_keyed.add(P.path(b))
     uid_keyed.discard(None)
-    for n in ast.walk(fn.node):
-        if not isinstance(n, ast.Delete):
-            continue
-        for t in n.targets:
-            if not isinstance(t, ast.Subscript):
-                continue
+    dels = [(n, t) for n in ast.walk(fn.node) if isinstance(n, ast.Delete) for t in n.targets if isinstance(t, ast.Subscript)]
+    dels += [(c, ast.Subscript(value=b, slice=k, ctx=ast.Del())) for c, b, what, k in synthetic if what.startswith("del") and k is not None]
+    for n, t in dels:
+        if True:
             w = who.who(t.value)
             if not parentish(w):
                 continue
